@@ -324,12 +324,19 @@ func sequence(c *explore.Chooser) *explore.Case {
 	step := []time.Duration{5 * time.Minute, 7 * time.Minute, time.Minute}[c.Free(3, "step")]
 	starts := []time.Duration{0, time.Hour, 2 * time.Hour, 90*time.Minute + 13*time.Second}
 	lengths := []time.Duration{2*time.Hour + 30*time.Second, 4*time.Hour + 30*time.Second, 3 * time.Hour, 4 * time.Hour, 2*time.Hour + step, time.Hour}
-	mk := func(tag string) window {
-		w := window{start: epoch.Add(starts[c.Free(len(starts), tag+".start")]), step: step}
+	// the earlier query may use another step (added after seed C11_4: a slice cached for one step must not answer
+	// a query with another one); presence is a function of the instant alone, so both grids see the same data
+	s1 := c.Free(3, "first.step")
+	step1 := []time.Duration{step, time.Minute, 5 * time.Minute}[s1]
+	if step1 == step && s1 != 0 {
+		return &explore.Case{Skip: true}
+	}
+	mk := func(tag string, st time.Duration) window {
+		w := window{start: epoch.Add(starts[c.Free(len(starts), tag+".start")]), step: st}
 		w.end = w.start.Add(lengths[c.Free(len(lengths), tag+".length")])
 		return w
 	}
-	w1, w2 := mk("first"), mk("second")
+	w1, w2 := mk("first", step1), mk("second", step)
 	gaps := c.Free(2, "gaps") == 1
 	present := func(s int, t time.Time) bool {
 		if !gaps {
@@ -359,7 +366,7 @@ func sequence(c *explore.Chooser) *explore.Case {
 		}
 		return out, nil
 	}
-	input := map[string]any{"step": step.String(), "first_query": fmt.Sprintf("%s..%s", w1.start.Format("15:04:05"), w1.end.Format("15:04:05")), "second_query": fmt.Sprintf("%s..%s", w2.start.Format("15:04:05"), w2.end.Format("15:04:05")), "gaps": gaps}
+	input := map[string]any{"step": step.String(), "first_step": step1.String(), "first_query": fmt.Sprintf("%s..%s", w1.start.Format("15:04:05"), w1.end.Format("15:04:05")), "second_query": fmt.Sprintf("%s..%s", w2.start.Format("15:04:05"), w2.end.Format("15:04:05")), "gaps": gaps}
 	cs := &explore.Case{Input: input, Key: fmt.Sprint(input), Outcome: "sequence"}
 	warm, err1 := run(w1, w2)
 	cold, err2 := run(w2)
@@ -369,6 +376,95 @@ func sequence(c *explore.Chooser) *explore.Case {
 	}
 	if warm != cold {
 		cs.Violate(fmt.Sprintf("sequence: earlier query changes the answer step=%s", step), fmt.Sprintf("asked after %v the query returns %s, asked on a fresh client it returns %s", input["first_query"], warm, cold), input)
+	}
+	return cs
+}
+
+// failover: a group of two upstreams that share one query cache (as FailoverGroup.StartWorkers arranges). The first
+// upstream answers some slices and then fails one with a 503, so the group asks the second upstream, whose data
+// differ. The answer must be the second upstream's unsliced evaluation: nothing the first one said may be merged
+// into it (added after seed C13_4, which keyed cached slices by the group's name instead of the upstream's URI).
+func failover(c *explore.Chooser) *explore.Case {
+	step := []time.Duration{5 * time.Minute, time.Minute, 7 * time.Minute}[c.Free(3, "step")]
+	w := window{start: epoch.Add([]time.Duration{0, time.Hour, 90*time.Minute + 13*time.Second}[c.Free(3, "start")]), step: step}
+	w.end = w.start.Add([]time.Duration{4*time.Hour + 30*time.Second, 6 * time.Hour, 3 * time.Hour}[c.Free(3, "length")])
+	conc := 1 + c.Free(2, "concurrency")
+	failAt := c.Free(4, "failing-arrival-on-first-upstream")
+	again := c.Free(2, "asked-again-afterwards") == 1
+	presentB := func(s int, t time.Time) bool {
+		k := int(t.Sub(epoch)/step) + s
+		return k%7 != 3 && k%25 != 0
+	}
+	always := func(int, time.Time) bool { return true }
+	render := func(res *promapi.RangeQueryResult) string {
+		var l []string
+		for _, r := range res.Series.Ranges {
+			l = append(l, fmt.Sprintf("%s %s..%s", r.Labels.Get("s"), r.Start.UTC().Format("15:04:05"), r.End.UTC().Format("15:04:05")))
+		}
+		sort.Strings(l)
+		return strings.Join(l, ";")
+	}
+	fixedNow := epoch.Add(24 * time.Hour)
+	now := func() time.Time { return fixedNow }
+	input := map[string]any{"step": step.String(), "query": fmt.Sprintf("%s..%s", w.start.Format("15:04:05"), w.end.Format("15:04:05")), "concurrency": conc, "first_upstream_fails_request": failAt, "asked_again": again}
+	cs := &explore.Case{Input: input, Key: fmt.Sprint(input), Outcome: "failover"}
+	// reference: the second upstream alone, fresh client
+	fpRef := &fakeProm{failAt: -1, series: []string{"a", "b"}, present: presentB}
+	ref := promapi.VerifNewPrometheus("p", "http://b", conc, fpRef, now)
+	ref.StartWorkers()
+	res, err := ref.RangeQuery(context.Background(), "m", w)
+	ref.Close()
+	if err != nil {
+		cs.Violate("failover: range-query-error", err.Error(), input)
+		return cs
+	}
+	cold := render(res)
+	fpA := &fakeProm{failAt: failAt, series: []string{"a", "b"}, present: always}
+	fpB := &fakeProm{failAt: -1, series: []string{"a", "b"}, present: presentB}
+	promA := promapi.VerifNewPrometheus("p", "http://a", conc, fpA, now)
+	promB := promapi.VerifNewPrometheus("p", "http://b", conc, fpB, now)
+	promapi.VerifShareCache(promA, promB)
+	promA.StartWorkers()
+	promB.StartWorkers()
+	defer promA.Close()
+	defer promB.Close()
+	fg := promapi.NewFailoverGroup("p", "http://a", []*promapi.Prometheus{promA, promB}, true, "up", nil, nil, nil)
+	res, err = fg.RangeQuery(context.Background(), "m", w)
+	if err != nil {
+		cs.Violate("failover: range-query-error", err.Error(), input)
+		return cs
+	}
+	fpA.mu.Lock()
+	failed := fpA.arrivals > failAt
+	fpA.mu.Unlock()
+	want, whose := cold, "second"
+	if !failed { // fewer slices than failAt: the first upstream answered everything
+		want, whose = "", "first"
+		cs.Outcome = "failover: first upstream answered"
+	}
+	if got := render(res); want != "" && got != want {
+		cs.Violate(fmt.Sprintf("failover: answer mixes upstreams step=%s", step), fmt.Sprintf("the group answered %s, the %s upstream alone answers %s", got, whose, want), input)
+		return cs
+	}
+	if again && failed {
+		// the first upstream is healthy again (only one request fails): it answers, with its own data
+		res, err = fg.RangeQuery(context.Background(), "m", w)
+		if err != nil {
+			cs.Violate("failover: range-query-error", err.Error(), input)
+			return cs
+		}
+		fpOnlyA := &fakeProm{failAt: -1, series: []string{"a", "b"}, present: always}
+		refA := promapi.VerifNewPrometheus("p", "http://a", conc, fpOnlyA, now)
+		refA.StartWorkers()
+		resA, errA := refA.RangeQuery(context.Background(), "m", w)
+		refA.Close()
+		if errA != nil {
+			cs.Violate("failover: range-query-error", errA.Error(), input)
+			return cs
+		}
+		if got, wantA := render(res), render(resA); got != wantA {
+			cs.Violate(fmt.Sprintf("failover: answer mixes upstreams (asked again) step=%s", step), fmt.Sprintf("the group answered %s, the first upstream alone answers %s", got, wantA), input)
+		}
 	}
 	return cs
 }
@@ -477,11 +573,12 @@ func ifThorough(a, b int) int {
 func main() {
 	explore.Main(&explore.Config{
 		Property: "C13", Level: "exploration",
-		Rule:        "real Prometheus.RangeQuery over a fake transport answering every query_range slice from a presence model; windows = 6 steps (incl. 7m and 11m which do not divide 2h) x 5 start offsets x 6 lengths x concurrency 1..3; presence patterns = ALL subsets of the grid for coarse grids (quick: <=7 points one series, <=3 two series; thorough: <=10 / <=5), otherwise always / one run / one gap / single missing point / single present point with end points on every window edge and within +-2 grid points of every slice boundary, for one and two series; oracle: every grid point requested exactly once on one global grid, result ranges = maximal runs of present consecutive grid points computed without slices; space arrival-orders: the same client with its synchronisation replaced by scheduler shims, 2-4 slices, concurrency 1..3, a gap right after a slice boundary and a series straddling the next one: every schedule within 2 (thorough 3) departures from the default one, with happens-before state caching: result equals the unsliced reference, one failing slice makes the call fail, no deadlock, no goroutine left behind; space sequence: two range queries (24 windows each, incl. ends just after a slice boundary) for one expression and step on one client with a query cache: the second answer must equal the answer of a fresh client",
+		Rule:        "real Prometheus.RangeQuery over a fake transport answering every query_range slice from a presence model; windows = 6 steps (incl. 7m and 11m which do not divide 2h) x 5 start offsets x 6 lengths x concurrency 1..3; presence patterns = ALL subsets of the grid for coarse grids (quick: <=7 points one series, <=3 two series; thorough: <=10 / <=5), otherwise always / one run / one gap / single missing point / single present point with end points on every window edge and within +-2 grid points of every slice boundary, for one and two series; oracle: every grid point requested exactly once on one global grid, result ranges = maximal runs of present consecutive grid points computed without slices; space arrival-orders: the same client with its synchronisation replaced by scheduler shims, 2-4 slices, concurrency 1..3, a gap right after a slice boundary and a series straddling the next one: every schedule within 2 (thorough 3) departures from the default one, with happens-before state caching: result equals the unsliced reference, one failing slice makes the call fail, no deadlock, no goroutine left behind; space sequence: two range queries (24 windows each, incl. ends just after a slice boundary) for one expression on one client with a query cache, the earlier one with the same or another step (1m/5m): the second answer must equal the answer of a fresh client; space failover: a group of two upstreams sharing one query cache, the first answers always-present data and fails its k-th request (k<4) with a 503, the second has gaps: 3 steps x 3 starts x 3 lengths x concurrency 1..2: the group's answer equals the second upstream's own answer, and asked again (first upstream healthy) the first upstream's own answer",
 		Assumptions: []string{"presence is instantaneous (a sample exists at grid instant t iff the pattern says so)", "in the values space the arrival order of slice responses is whatever the Go runtime produces; the arrival-orders space enumerates schedules under the controlled scheduler"},
 		Spaces: []*explore.Space{
 			{Name: "values", Body: body, Bound: func(string) int { return -1 }, Setup: func(t string) { tier = t }},
 			{Name: "sequence", Body: sequence, Bound: func(string) int { return -1 }, Setup: func(t string) { tier = t }},
+			{Name: "failover", Body: failover, Bound: func(string) int { return -1 }, Setup: func(t string) { tier = t }},
 			{Name: "arrival-orders", Body: orders, StateCache: true, Setup: func(t string) { tier = t }, Bound: func(t string) int {
 				if t == "thorough" {
 					return 3
